@@ -168,3 +168,77 @@ def gen_interleave(rng):
         tasks[victim]["cancel_at"] = rng.randint(1, 60)
         spec["faults"] = [{"kind": "cancel", "task": victim, "at": tasks[victim]["cancel_at"]}]
     return spec
+
+
+# ----------------------------------------------------------------------------- systematic schedule sweep
+SWEEP_DOCS = [
+    ("docstring-open-indent6", "Feature: a\n  Scenario: s\n    Given x\n      \"\"\"\n      Given body\n"),
+    ("fr-header", "# language: fr\nFonctionnalit\u00e9: b\n  Sc\u00e9nario: s\n    Soit y\n"),
+    ("pending-tags-deep-description", "Feature: c\n      deep description\n  Scenario: s\n    Given z\n  @tag\n"),
+    ("ragged-table", "Feature: d\n  Scenario: s\n    Given t\n      | a |\n      | b | c |\n"),
+    ("lookahead-comments", "Feature: e\n  # comment\n  @t1\n  # c2\n  Scenario: s\n"),
+    ("error-first", "junk\nFeature: f\n  Scenario: s\n    Given w\n"),
+]
+_sweep = {}
+
+
+def _sweep_plan():
+    """[(a, b, releases_a, releases_b, first schedule index)], total - sizes come from the code's own token counts."""
+    if "plan" not in _sweep:
+        from math import comb
+        from . import engine, seams
+        seams.install()
+        rel = []
+        for _name, text in SWEEP_DOCS:
+            r = engine.ALONE.parse(text, {"c": "tm", "d": "en"}, "ast", False, "text")
+            rel.append(r["toks"] + 2)  # start yield + one yield per token read, +1 for the final release
+        plan, total = [], 0
+        for a in range(len(SWEEP_DOCS)):
+            for b in range(len(SWEEP_DOCS)):
+                plan.append((a, b, rel[a], rel[b], total))
+                total += comb(rel[a] + rel[b], rel[a])
+        _sweep["plan"], _sweep["total"] = plan, total
+    return _sweep["plan"], _sweep["total"]
+
+
+def n_sweep():
+    return _sweep_plan()[1]
+
+
+def _unrank(k, n0, n1):
+    """k-th (lexicographic) sequence with n0 zeros and n1 ones."""
+    from math import comb
+    out = []
+    while n0 or n1:
+        if n0 == 0:
+            out.append(1)
+            n1 -= 1
+        elif n1 == 0:
+            out.append(0)
+            n0 -= 1
+        else:
+            c = comb(n0 - 1 + n1, n1)  # sequences that start with 0
+            if k < c:
+                out.append(0)
+                n0 -= 1
+            else:
+                k -= c
+                out.append(1)
+                n1 -= 1
+    return out
+
+
+def sweep_spec(index):
+    import bisect
+    plan, total = _sweep_plan()
+    starts = [p[4] for p in plan]
+    pi = bisect.bisect_right(starts, index) - 1
+    a, b, ra, rb, first = plan[pi]
+    sched = _unrank(index - first, ra, rb)
+    tasks = []
+    for ti, d in enumerate((a, b)):
+        tasks.append({"parsers": [{"b": "ast", "g": ti}], "matchers": [{"c": "tm", "d": "en"}], "compilers": [],
+                      "ops": [{"op": "parse", "p": 0, "m": 0, "text": SWEEP_DOCS[d][1], "first": False, "src": "scanner"}]})
+    return {"scenario": "interleave", "sweep": True, "prop": "C15", "labels": [SWEEP_DOCS[a][0], SWEEP_DOCS[b][0]], "oracles": ORACLES,
+            "cfg": {"flavour": "inc", "policy": "explicit", "sched_seed": 0}, "gens": 2, "fs": {}, "tasks": tasks, "force_kernel": True,
+            "explicit_schedule": sched}
